@@ -16,7 +16,7 @@ try:
     r = subprocess.run(["git", "-C", wt, "apply", os.path.join(d, "patch.diff")], capture_output=True, text=True)
     if r.returncode != 0:
         print("PATCH-DOES-NOT-APPLY", r.stderr[-300:]); sys.exit(2)
-    env = dict(os.environ); env["AMGCL_REPO"] = wt
+    env = dict(os.environ); env["AMGCL_REPO"] = wt; env["VERIF_EVIDENCE_DIR"] = os.path.join(V, ".cache", "seeded_evidence")
     res = {}
     for c in checks:
         p = subprocess.run([sys.executable, os.path.join(V, "tools", "vcheck.py"), "check", c, "--tier", a.tier, "--seed", a.seed],
